@@ -240,14 +240,18 @@ func checkC13(t *testing.T, env *report.Env, rep *report.Report) {
 // so last-access stamps of reads since the last install survive a restart.
 func shutdownFlush(rep *report.Report) {
 	sec := rep.Add(&report.Section{Name: "poller-shutdown-flush", Engine: "enum", Exhaustive: true, Extra: map[string]int64{},
-		Rule: "stores with a running poller (harness ticker): {read / lookup+read / nothing} at a later clock value, then Close; the cache document after Close must hold every known secret with its current version, bytes and last-access stamp; non-trivial = runs with a read after the last install"})
+		Rule: "stores with a running poller (harness ticker): {read / lookup+read / nothing / an install whose cache write fails} then Close; the cache document after Close must hold every known secret with its current version, bytes and last-access stamp; non-trivial = runs with a read after the last install"})
 	for _, withLookup := range []bool{false, true} {
-		for _, reads := range []int{0, 1, 2} {
+		for _, reads := range []int{0, 1, 2, -1, -2} {
+			// reads < 0: no reads, but the cache write of the (-reads)-th install fails; the shutdown flush must repair it
 			clock := epoch
 			svc := NewSvc()
 			svc.Put("d")
 			svc.Put("u")
 			c := &HCache{}
+			if reads < 0 {
+				c.FailW = -reads
+			}
 			st, err := setec.NewStore(context.Background(), setec.StoreConfig{Client: svc, Secrets: []string{"d"}, AllowLookup: true, Cache: c,
 				PollTicker: &hTicker{ch: make(chan time.Time)}, Logf: func(string, ...any) {}, TimeNow: func() time.Time { return clock }})
 			if err != nil {
@@ -262,6 +266,11 @@ func shutdownFlush(rep *report.Report) {
 					panic(err)
 				}
 				names = append(names, "u")
+			}
+			if reads < 0 {
+				// one more install through a poll, whose write fails when FailW points at it
+				svc.Put("d")
+				st.Refresh(context.Background())
 			}
 			for i := 0; i < reads; i++ {
 				clock = clock.Add(7 * time.Second)
